@@ -30,8 +30,8 @@ class C04(Property):
             "repeats, a written length (expected length, or the computed curve length) representable and within ±131072, and a control-point list in the decidable class RepPath (see C02: "
             "first point origin and typed, integral coordinates, well-formed types, three-point perfect curves, no repeated position where the decoder would split — F17 and consecutive "
             "Catmull segments are outside). The ±131072 bound on the written length is forced by the decoder and is violated by the real encoder when a slider has no expected length and "
-            "its computed curve is longer than 131072 (witness `0,0,1000,2,0,L|131072:131072|-131072:-131072|131072:131072,1`: `lines` oracle FAIL, encoder wrote a line its decoder rejects; "
-            "not reached by the generators; reported, not yet in known_findings.json). Acceptance alone needs less than RepPath (a repeated point makes the round trip lose a control point, not the line rejected); that weaker "
+            "its computed curve is longer than 131072 (witness `0,0,1000,2,0,L|131072:131072|-131072:-131072|131072:131072,1`: `lines` oracle: encoder wrote a line its decoder rejects): finding F20, kept as the explicit "
+            "hypothesis RepSlider.distRep. Acceptance alone needs less than RepPath (a repeated point makes the round trip lose a control point, not the line rejected); that weaker "
             "acceptance-only statement is not proved separately. That every object of a DECODED map is representable is not proved here",
         "line acceptance for [TimingPoints] lines and the per-map assembly (timing_lines_accepted, list_block_lines_accepted_statement)":
             "NOT yet theorems (`def list_block_lines_accepted_statement : Prop`); record_blocks_accepted_and_recovered assumes of these two blocks only that they are LF-terminated lines that "
